@@ -98,6 +98,15 @@ class C13(Prop):
                 Vv = [[cst] * m for _ in range(n)]
             yield dict(entry={"PRV": "LambdaPRV.scf", "KARV": "KARV.scf"}[erule], family="elicit_constant", rule="EV", erule=erule, P=P, V=Vv, k=k, tb=["accept", "first", "random"][i % 3],
                        want_out=True, seed=i, eclass=["lambda", "profile"][i % 2], ezi=True)
+        # k-ARV with small integer utilities and a number of alternatives whose thresholds v / m**(l/(k+1)) are exact (m = 4, 9, 16 with k = 1; 8 with k = 2; 16 with k = 3):
+        # utilities that sit exactly ON a threshold, and exact ties between the scores of several alternatives
+        for i in range(60 if tier == "quick" else 900):
+            m, k = [(4, 1), (9, 1), (8, 2), (4, 1), (16, 1), (16, 3)][i % 6]; n = rng.randint(2, 4)
+            P = [rng.sample(range(1, m + 1), m) for _ in range(n)]; Vv = []
+            for row in P:
+                vals = sorted([float(rng.randint(0, 8)) for _ in range(m)], reverse=True); Vv.append([vals[r - 1] for r in row])
+            yield dict(entry="KARV.scf", family="karv_exact_thresholds", rule="EV", erule="KARV", P=P, V=Vv, k=k, tb=["accept", "first", "random"][i % 3],
+                       want_out=True, seed=i, eclass=["lambda", "profile"][i % 2], ezi=True)
         # "for every rule in the library": the matching, allocation and elicitation rule families, run under both conventions
         from . import c20 as C20M
         for c in C20M.PROP.cases(rng, tier):
@@ -148,6 +157,12 @@ class C13(Prop):
             if obs["status"] != "ok":
                 return ("no_result", "%s failed on a valid profile: %s %s / %s %s" % (case["entry"], a["status"], a.get("err"), b["status"], b.get("err")))
             vt = b["vt"]; sc = [float(x) for x in vt] if case["erule"] == "PRV" else [float(x) for x in np.sum(np.array(vt, dtype=float), axis=0)]      # (numpy's own reduction, as KARV.score does: Python 3.12's built-in sum() of floats is compensated and differs in the last bit)
+            if case["erule"] == "KARV":      # the documented score: column sums of the simulated values given by the threshold sets (independent linear-scan reference)
+                from . import elicit_common as EC2
+                ref, _ = EC2.ref_threshold_fill(case["P"], case["V"], case["k"], len(case["P"][0]), 0.0, False)
+                rs = [float(x) for x in np.sum(np.array(ref, dtype=float), axis=0)]
+                if any(abs(x - y) > 1e-9 * max(1.0, abs(y)) for x, y in zip(sc, rs)):
+                    return ("wrong_score_basis", "k-ARV scores %r are not the column sums of the documented simulated values %r" % (sc, rs))
             mx = max(sc); maxi = [j for j in range(len(sc)) if sc[j] == mx]
             oa, ob = a["out"], b["out"]
             if case["tb"] == "accept":
